@@ -55,8 +55,12 @@ EXTRA = {"</rt>": ["e:rt:-"], "<q:a>": ["s:a:q"], "</q:a>": ["e:a:q"], "</doc>":
          "wscomment": ["x:-", "d:32,32", "x:1"], "cdata": ["x:-", "d:100", "x:2"], "y": ["d:121,32"], "ff": ["d:12"], "nbsp": ["d:160"]}
 
 
-def make_builder(cfg, events):
+def make_builder(cfg, events, attempts=()):
+    """`attempts`: event lists of earlier parsing strategies, each sent and then rejected with ParserRejectedMarkup (what the
+    lxml builders do per candidate encoding); `events` is the strategy that succeeds"""
     from bs4.builder import TreeBuilder
+    from bs4.exceptions import ParserRejectedMarkup
+    void = cfg.get("void", "*")
 
     class ReplayBuilder(TreeBuilder):
         NAME = "verif-replay"
@@ -66,16 +70,20 @@ def make_builder(cfg, events):
         DEFAULT_PRESERVE_WHITESPACE_TAGS = set(cfg["pre"])
         DEFAULT_STRING_CONTAINERS = {k: cls_obj(v) for k, v in cfg["cont"].items()}
         DEFAULT_CDATA_LIST_ATTRIBUTES = {}
-        DEFAULT_EMPTY_ELEMENT_TAGS = None
+        DEFAULT_EMPTY_ELEMENT_TAGS = None if void == "*" else set(void)
 
         def prepare_markup(self, markup, user_specified_encoding=None, document_declared_encoding=None, exclude_encodings=None):
+            if markup == "REPLAY":
+                for i in range(len(attempts)):
+                    yield f"REPLAY:{i}", None, None, False
             yield markup, None, None, False
 
         def feed(self, markup):
-            if markup != "REPLAY":          # copy_self() re-feeds "" through the same builder
+            if not markup.startswith("REPLAY"):          # copy_self() re-feeds "" through the same builder
                 return
             soup = self.soup
-            for ev in events:
+            rejected = markup != "REPLAY"
+            for ev in (attempts[int(markup[7:])] if rejected else events):
                 f = ev.split(":")
                 if f[0] == "s":
                     soup.handle_starttag(f[1], None, None if f[2] == "-" else f[2], {})
@@ -85,6 +93,8 @@ def make_builder(cfg, events):
                     soup.handle_data("" if f[1] == "-" else "".join(chr(int(c)) for c in f[1].split(",")))
                 elif f[0] == "x":
                     soup.endData(None if f[1] == "-" else cls_obj(int(f[1])))
+            if rejected:
+                raise ParserRejectedMarkup("verif: strategy rejected after sending events")
 
     return ReplayBuilder()
 
@@ -100,12 +110,28 @@ def shape(el):
     return "".join(out)
 
 
-def real_build(cfg, events):
+def real_build(cfg, events, attempts=(), kwargs=None):
     from bs4 import BeautifulSoup
     with warnings.catch_warnings():
         warnings.simplefilter("ignore")
-        soup = BeautifulSoup("REPLAY", builder=make_builder(cfg, events))
+        soup = BeautifulSoup("REPLAY", builder=make_builder(cfg, events, attempts), **(kwargs or {}))
     return soup
+
+
+def void_check(soup, void):
+    """empty-element rule: `None` = any element may be void, a set (the empty one included) = exactly its members; a void element
+    without children is written <x/>, every other element <x></x>"""
+    from bs4.element import Tag
+    for t in soup.find_all(True):
+        want = True if void == "*" else (t.name in void)
+        if bool(t.can_be_empty_element) != want:
+            return f"<{t.name}>.can_be_empty_element is {t.can_be_empty_element}, the empty-element rule {void!r} says {want}"
+        if not t.contents:
+            nm = (t.prefix + ":" if t.prefix else "") + t.name
+            w = f"<{nm}/>" if want else f"<{nm}></{nm}>"
+            if t.decode() != w:
+                return f"childless <{t.name}> is written {t.decode()!r}, expected {w!r} under the empty-element rule {void!r}"
+    return None
 
 
 ASCII_SPACES = "\x20\x0a\x09\x0c\x0d"
@@ -226,31 +252,46 @@ def fmt_cfg(cfg):
     return f"{pre} {cont}"
 
 
-def check_case(ctx, cfgname, events, stream, lines, impls, cases, link_lines=None, link_impls=None):
+VOIDS = ["*", [], ["b"], ["a", "pre", "z"]]
+
+
+def check_case(ctx, cfgname, events, stream, lines, impls, cases, link_lines=None, link_impls=None, attempts=(), void=None):
     from . import heapsim
     cfg = CONFIGS[cfgname]
+    case = {"cfg": cfgname, "events": events}
+    kwargs = None
+    if void is not None:
+        case["void"] = void
+        cfg = dict(cfg, void=void)
+    if attempts:
+        case["attempts"] = [list(a) for a in attempts]
     try:
-        soup = real_build(cfg, events)
+        soup = real_build(cfg, events, attempts, kwargs)
     except Exception as e:
-        ctx.violation(f"replaying the events raised {type(e).__name__}: {e}", case={"cfg": cfgname, "events": events}, stream=stream)
+        ctx.violation(f"replaying the events raised {type(e).__name__}: {e}", case=case, stream=stream)
         return
+    if void is not None:
+        msg = void_check(soup, void)
+        ctx.count("void-rule:" + ("*" if void == "*" else str(len(void))))
+        if msg:
+            ctx.violation("empty-element rule of the builder configuration not honoured: " + msg, case=case, observed=msg, stream=stream)
     got = shape(soup)
     want = oracle(cfg, events)
     nontrivial = any(e.startswith("e:") for e in events) and any(e.startswith("s:") for e in events)
     ctx.case((cfgname, tuple(events)) if nontrivial else None,
              sample={"cfg": cfgname, "events": events, "tree": got} if nontrivial and len(ctx.samples) < 5 else None)
     if got != want:
-        ctx.violation("tree differs from the documented construction rules", case={"cfg": cfgname, "events": events},
+        ctx.violation("tree differs from the documented construction rules", case=case,
                       expected=want, observed=got, stream=stream)
     msg = heapsim.oracle_c01(SoupWorld(soup))
     if msg:
-        ctx.violation("the built tree is not well linked: " + msg, case={"cfg": cfgname, "events": events}, observed=msg, stream=stream)
+        ctx.violation("the built tree is not well linked: " + msg, case=case, observed=msg, stream=stream)
     # everything closed at end of input
     if soup.currentTag is not soup or len(soup.tagStack) != 1:
-        ctx.violation("open elements remain after end of input", case={"cfg": cfgname, "events": events}, stream=stream)
+        ctx.violation("open elements remain after end of input", case=case, stream=stream)
     lines.append(f"c03 build {fmt_cfg(cfg)} {';'.join(events) if events else '-'}")
     impls.append(got)
-    cases.append({"cfg": cfgname, "events": events})
+    cases.append(case)
     if link_lines is not None:
         link_lines.append(f"c03 link {fmt_cfg(cfg)} {';'.join(events) if events else '-'}")
         link_impls.append(link_dump(soup))
@@ -291,6 +332,21 @@ def run(ctx: Ctx):
         events = [e for _ in range(k) for e in allsyms[r.choice(names)]]
         check_case(ctx, cfgname, events, "random", lines, impls, cases, link_lines, link_impls)
     ctx.count("random", ctx.n(3000, 60000))
+    # empty-element rules (None / empty set / sets) and strategies rejected after sending events (the tree is the one of the events of
+    # the feed that succeeded: a rejected attempt leaves nothing behind)
+    for i in range(ctx.n(1500, 30000)):
+        r = ctx.rng("cfgx", i)
+        cfgname = r.choice(list(CONFIGS))
+        events = [e for _ in range(r.randint(1, 25)) for e in allsyms[r.choice(names)]]
+        attempts = []
+        if r.random() < 0.6:
+            for _ in range(r.randint(1, 3)):
+                attempts.append([e for _ in range(r.randint(0, 8)) for e in allsyms[r.choice(names)]])
+        void = r.choice(VOIDS) if r.random() < 0.7 else None
+        check_case(ctx, cfgname, events, "retry+void", lines, impls, cases, link_lines, link_impls, attempts=attempts, void=void)
+        if attempts:
+            ctx.count("retry:documents")
+            ctx.count("retry:rejected-attempts-with-events", sum(1 for a in attempts if a))
     # model: code-mirror and documented fold
     drv = Driver()
     compare_links(ctx, drv, link_lines, link_impls, cases)
@@ -329,9 +385,13 @@ def replay(path):
     if "events" not in c:
         print(json.dumps(v, indent=1)[:3000]); return 1
     cfg = CONFIGS[c["cfg"]]
-    soup = real_build(cfg, c["events"])
+    if "void" in c:
+        cfg = dict(cfg, void=c["void"])
+    soup = real_build(cfg, c["events"], c.get("attempts", ()))
     got, want = shape(soup), oracle(cfg, c["events"])
     from . import heapsim
     msg = heapsim.oracle_c01(SoupWorld(soup))
-    print("events:", c["events"]); print("implementation:", got); print("documented rules:", want); print("linkage:", msg or "ok")
-    return 0 if got == want and not msg else 1
+    vmsg = void_check(soup, c["void"]) if "void" in c else None
+    print("events:", c["events"]); print("rejected attempts before them:", c.get("attempts", []))
+    print("implementation:", got); print("documented rules:", want); print("linkage:", msg or "ok"); print("empty-element rule:", vmsg or "ok")
+    return 0 if got == want and not msg and not vmsg else 1
